@@ -14,7 +14,7 @@ from libertem_blobfinder.base.utils import make_polar
 PROP = "C12"
 LEAN_MODULE = "BlobfinderModel.Properties.C12"
 GEN_FILES = ["Fullmatch", "Lattice"]
-FRAGMENTS = ["filters", "full_match_loop", "fastmatch", "optimize"]
+FRAGMENTS = ["filters", "full_match_loop", "fastmatch", "optimize", "containers_text"]
 DRIVER = "drvlattice"
 RULE = ("correspondence: the answers of _find_best_vector_match are recorded from the real full_match run (wrapped) and "
         "replayed through the model of the loop; matches / unmatched / weak selectors compared exactly; oracle: the "
